@@ -211,6 +211,9 @@ func (r *Reader) ReadAt(p []byte, off int64) (int, error) {
 		}
 		return n, io.EOF
 	}
+	if off+int64(n) >= lim && (r.Terminal == 2 || r.Policy.DataWithEOF) {
+		return n, io.EOF // a ReaderAt may report EOF together with the last bytes
+	}
 	return n, nil
 }
 
